@@ -12,12 +12,12 @@ func init() {
 		ID:    "C10",
 		Level: "other",
 		Run:   checkC10,
-		Explanation: "Promptness (three heartbeat intervals) is timing and is not decided. Decided, for all priorities and flags: (R1) every Update that is not the heartbeat refresh is reached only with AllowPriorityTakeover true in the own configuration, after a successful Get in the same activation, after that entry's value decoded into the payload type, under the STRICT comparison own priority > stored priority, and presents exactly that entry's revision; " +
+		Explanation: "Promptness (three heartbeat intervals) is timing and is not decided. Decided, for all priorities and flags: (R1) every Update that is not the heartbeat refresh is reached only with AllowPriorityTakeover true in the own configuration, after a successful Get in the same activation, after that entry's value decoded into the payload type and names a leader (non-empty id), under the STRICT comparison own priority > stored priority, and presents exactly that entry's revision; " +
 			"(R2) the takeover code is reachable from the follower's watch-event handling (the mechanism behind promptness; reachability only); (R3) validation rejects AllowPriorityTakeover with Priority <= 0 (C16); (R4) an acquisition that did not set the claim is reported as a failure (C06-R5, shared); (R5) on a watch event the decision to attempt a takeover depends only on the event, the follower role and the priority comparison (must-guards and deciding conditions), so that a lost attempt is repeated on the incumbent's next heartbeat event.",
 		NotDecided: []string{"that a higher-priority instance becomes leader within three heartbeat intervals (timing)", "that leadership then stays with the highest-priority instance (schedule)"},
 		Assumptions: []string{"KeyValue.Update is revision-checked (C14)"},
 		Rules: map[string]string{
-			"R1": "guards (local + inherited from all call sites) of every non-refresh Update include: cfg.AllowPriorityTakeover == true; Get err == nil; Unmarshal(entry.Value(), &cur) == nil; NOT (cfg.Priority <= cur.Priority) [strict]; revision argument == Revision() of that Get's entry",
+			"R1": "guards (local + inherited from all call sites) of every non-refresh Update include: cfg.AllowPriorityTakeover == true; Get err == nil; Unmarshal(entry.Value(), &cur) == nil; NOT (\"\" == cur.ID); NOT (cfg.Priority <= cur.Priority) [strict]; revision argument == Revision() of that Get's entry",
 			"R2": "a non-refresh Update is reachable (static calls and go statements) from the function that calls Watch",
 			"R3": "see C16-R1 (AllowPriorityTakeover && Priority <= 0 rejected)",
 			"R5": "the go statement in the watch handling that is guarded by the priority comparison and reaches the takeover: its guards are only literals over the event (entry, decoded payload), the claim, cfg.AllowPriorityTakeover / cfg.Priority, the recorded leader id and the context",
@@ -72,6 +72,12 @@ func checkC10(c *Ctx) {
 			}
 		}
 		c.check(dec, "R1", "takeover after the record decoded in "+fn, op.Call, "json.Unmarshal(entry.Value(), &%s) == nil among the guards: %v", target, dec)
+		// the record names a leader: valid JSON that is not a leadership payload (null, {}, another
+		// application's record) decodes to the zero payload, "priority 0"
+		named := hasLit(gs, false, func(s *Sym) bool {
+			return target != "" && s.Op == "bin" && s.Name == "==" && ((s.Args[0].String() == `""` && s.Args[1].String() == target+".ID") || (s.Args[1].String() == `""` && s.Args[0].String() == target+".ID"))
+		})
+		c.check(named, "R1", "takeover only of a record that names a leader in "+fn, op.Call, "NOT (\"\" == %s.ID) among the guards: %v. A live record that decodes without error but is no leadership payload would be read as priority 0 and overwritten.", target, named)
 		// strict priority comparison
 		own := m.cfgPath("Priority")
 		strict := false
@@ -198,4 +204,37 @@ func checkC10(c *Ctx) {
 	}
 	c.check(found, "R3", "takeover requires a positive priority", nil, "validator rejects AllowPriorityTakeover && Priority <= 0: %v", found)
 	_ = fmt.Sprint
+}
+
+
+// takeoverNamesLeaderRule (C13-R6, the same fact as in C10-R1): a takeover is attempted only against
+// a record whose decoded payload names a leader.
+func takeoverNamesLeaderRule(c *Ctx, rule string) {
+	m := c.M
+	n := 0
+	for _, op := range m.StoreOps() {
+		if m.classifyOp(op) != "takeover" {
+			continue
+		}
+		n++
+		gs := m.AllGuards(op.Call, false)
+		target := ""
+		for _, l := range gs {
+			if l.Truth && l.S.Op == "bin" && l.S.Name == "==" && symMentions(l.S, "nil") {
+				for _, a := range l.S.Args {
+					if a.Op == "call" && a.Name == "encoding/json.Unmarshal" && len(a.Args) == 2 && symMentions(a.Args[0], "Entry.Value(") {
+						target = strings.TrimPrefix(a.Args[1].String(), "&")
+					}
+				}
+			}
+		}
+		named := hasLit(gs, false, func(s *Sym) bool {
+			return target != "" && s.Op == "bin" && s.Name == "==" && ((s.Args[0].String() == `""` && s.Args[1].String() == target+".ID") || (s.Args[1].String() == `""` && s.Args[0].String() == target+".ID"))
+		})
+		c.check(named, rule, "no leadership claimed over a live record that names no leader: "+shortFn(op.Fn), op.Call,
+			"the takeover Update is guarded by a non-empty id of the decoded record: %v (null, {} or another application's JSON decode without error into the zero payload)", named)
+	}
+	if n == 0 {
+		c.undecided(rule, "takeover path", nil, "no takeover Update found")
+	}
 }
